@@ -409,6 +409,59 @@ def run_tls(case):
         httppipe.close_all([patron] if patron else [], valets)
 
 
+SAME_HOSTS = ["127.0.0.1", "localhost"]
+
+
+def run_sameaddr(case):
+    """case = {"sameaddr": True, "code": 302, "host": index into SAME_HOSTS, "target": index, "scheme": "https" | "http"}
+    A Patron over an in-memory plain connection to 127.0.0.1:8080 receives a redirect whose Location names the SAME
+    host and port. With scheme https only the scheme differs: the request for the https Location must not be written
+    to the plain connection (not a byte of it), the connector is replaced by a TLS one and the requester's scheme is
+    https. With scheme http nothing differs and the request is reissued (on whatever connection) as GET <target>."""
+    from vp.net import http_doubles
+    from ioflo.aio.tcp import clienting as tcpclienting
+    tpath, tq = TLS_TARGETS[case.get("target", 0) % len(TLS_TARGETS)]
+    tail = quote(tpath) + (("?" + urlencode([(k, v) for k, v in tq])) if tq else "")
+    scheme = case["scheme"]
+    loc = "%s://%s:8080%s" % (scheme, SAME_HOSTS[case["host"] % len(SAME_HOSTS)], tail)
+    patron, cs = http_doubles.make_patron(method="GET", path="/", redirectable=True)
+    old = patron.connector
+    fails = []
+    try:
+        patron.request(method="GET", path="/h0-s")
+        patron.serviceAll()
+        first = bytes(cs.sent)
+        cs.deliver(("HTTP/1.1 %d Moved\r\nLocation: %s\r\nContent-Length: 0\r\n\r\n" % (case["code"], loc)).encode())
+        try:
+            for _ in range(4):
+                patron.serviceAll()
+        except Exception as ex:   # noqa: BLE001
+            return [("%s/sameaddr-%s" % (httppipe.exc_sig(ex), scheme), "redirect to %r (same host and port as the connection) raised %r" % (loc, ex))], False
+        later = bytes(cs.sent)[len(first):]
+        if scheme == "https":
+            if later:
+                fails.append(("https-location-requested-in-clear", "Location %r differs from the connection (http://127.0.0.1:8080) in "
+                              "its scheme only: the reissued request was written to the plain connection: %r" % (loc, later[:80])))
+            elif patron.connector is old or not isinstance(patron.connector, tcpclienting.ClientTls):
+                fails.append(("scheme-change-no-reconnect", "Location %r: the client kept its plain connector (%s) instead of "
+                              "reconnecting with TLS" % (loc, type(patron.connector).__name__)))
+            elif patron.requester.scheme != "https":
+                fails.append(("scheme-change-requester", "Location %r: requester scheme is %r" % (loc, patron.requester.scheme)))
+        else:
+            sent = later if patron.connector is old else None
+            if sent is not None and not sent.startswith(("GET %s HTTP/1.1\r\n" % tail).encode()):
+                fails.append(("same-address-not-reissued", "Location %r (nothing differs): the connection carried %r instead of the "
+                              "reissued GET %s" % (loc, sent[:80], tail)))
+        return fails, False
+    finally:
+        for c in {id(old): old, id(patron.connector): patron.connector}.values():
+            try:
+                if c.cs is not cs:
+                    c.close()
+            except Exception:   # noqa: BLE001
+                pass
+
+
 def _run_tls_chain(case, kind, certdir, store, log, table, valets, tpath, tq, tail):
     """Two hop chains whose LAST hop leaves https for http and must be refused:
     updown:     http origin -> https middle -> Location http://...
@@ -579,6 +632,16 @@ def work(shard, seed, tier):
                     acc.note("a TLS case was inconclusive (handshake/trust store/bound)")
                 for sig, what in fails:
                     acc.fail(sig, what, case)
+        # Location on the same host and port: only the scheme differs (or nothing does)
+        for code in sorted(CODES):
+            for host in range(len(SAME_HOSTS)):
+                for scheme in ("https", "http"):
+                    case = {"sameaddr": True, "code": code, "host": host, "scheme": scheme, "target": (seed + code + host) % len(TLS_TARGETS)}
+                    fails, _ = run_sameaddr(case)
+                    acc.case(key=("sameaddr", code, host, scheme, case["target"]), nontrivial=scheme == "https",
+                             classes=["sameaddr:" + scheme], sample=case if (code == 302 and host == 0) else None)
+                    for sig, what in fails:
+                        acc.fail(sig, what, case)
         # absolute Location without a port (default port of the scheme)
         dcombos = [(t, c, pre) for t in range(len(TLS_TARGETS)) for c in sorted(CODES) for pre in (0, 1)]
         if tier == "quick":
@@ -612,6 +675,8 @@ def work(shard, seed, tier):
 def replay(case):
     if "defport" in case:
         return run_defport(case)[0]
+    if "sameaddr" in case:
+        return run_sameaddr(case)[0]
     if "tls" in case:
         return run_tls(case)[0]
     return run_case(case)[0]
